@@ -1426,6 +1426,9 @@ func unmarshalDate(info TypeInfo, data []byte, value interface{}) error {
 			*v = time.Time{}
 			return nil
 		}
+		if len(data) != 4 {
+			return unmarshalErrorf("unmarshal date: expected 4 bytes, got %d", len(data))
+		}
 		var origin uint32 = 1 << 31
 		var current uint32 = binary.BigEndian.Uint32(data)
 		timestamp := (int64(current) - int64(origin)) * millisecondsInADay
@@ -1435,6 +1438,9 @@ func unmarshalDate(info TypeInfo, data []byte, value interface{}) error {
 		if len(data) == 0 {
 			*v = ""
 			return nil
+		}
+		if len(data) != 4 {
+			return unmarshalErrorf("unmarshal date: expected 4 bytes, got %d", len(data))
 		}
 		var origin uint32 = 1 << 31
 		var current uint32 = binary.BigEndian.Uint32(data)
